@@ -26,6 +26,8 @@ def run(ctx, rep):
     rep.rule("O4", "Heisenberg picture: a POVM vector multiplies an HS matrix from the left (vec @ hs, or hs.T @ vec); the outcome "
                    "probability of a measurement process is the trace functional of the unnormalised post-state and the post-state is "
                    "divided by that same probability", floor=4)
+    rep.rule("O6", "the POVM measured by a measurement process is the Heisenberg image of the identity: element x is sqrt(d) times ROW 0 of "
+                   "HS_x in an identity-first orthonormal basis (column 0 would be the Schroedinger image M_x(I) of the identity)", floor=1)
     rep.rule("S2", "projective back-action (mode 1): for a repeated eigenvalue the rank-1 projectors are summed to the eigenspace projector "
                    "P before the quadratic term kron(P, conj P) is formed (the sum of per-vector terms drops the cross terms and dephases the "
                    "state inside the eigenspace)", floor=1)
@@ -120,6 +122,7 @@ def run(ctx, rep):
         elif fd.ok is False:
             rep.violation("S1", g, fd.node, fd.text, node=fd.node)
     _s2_eigenspace(ctx, rep, g)
+    _to_povm(ctx, rep)
     # ---- O5
     c = ix.func(OP + "compose_qoperations")
     txt = [unparse(s) for s in c.node.body]
@@ -232,3 +235,56 @@ def _s2_eigenspace(ctx, rep, g):
                           "degenerate eigenspace is destroyed" % sorted(bases & elem_names), node=k)
         else:
             rep.undecided("S2", g, con, "operands %s are neither the summed projector nor single projectors of the group" % sorted(bases))
+
+
+
+def _to_povm(ctx, rep):
+    from ..astutil import deep_inline
+    f = ctx.ix.funcs.get("quara.objects.mprocess.MProcess.to_povm")
+    if f is None:
+        rep.undecided("O6", "quara.objects.mprocess.MProcess", "to_povm", "method not found")
+        return
+    # element-wise map over self.hss (comprehension or append loop)
+    cands = []
+    for n in own_nodes(f.node):
+        if isinstance(n, (ast.ListComp, ast.GeneratorExp)) and len(n.generators) == 1 and isinstance(n.generators[0].target, ast.Name) \
+                and unparse(n.generators[0].iter) in ("self.hss", "self._hss"):
+            cands.append((n.generators[0].target.id, n.elt, n))
+        if isinstance(n, ast.For) and isinstance(n.target, ast.Name) and unparse(n.iter) in ("self.hss", "self._hss"):
+            apps = [c for st in n.body for c in ast.walk(st) if isinstance(c, ast.Call) and isinstance(c.func, ast.Attribute) and c.func.attr == "append" and c.args]
+            local = {st.targets[0].id: st.value for st in n.body if isinstance(st, ast.Assign) and len(st.targets) == 1 and isinstance(st.targets[0], ast.Name)}
+            for a in apps:
+                e = a.args[0]
+                for _ in range(3):
+                    if isinstance(e, ast.Name) and e.id in local:
+                        e = local[e.id]
+                cands.append((n.target.id, e, n))
+    if len(cands) != 1:
+        rep.undecided("O6", f, "to_povm", "expected one element-wise map over self.hss, found %d" % len(cands))
+        return
+    lv, e, node = cands[0]
+    e = deep_inline(f, e)
+    subs = [x for x in ast.walk(e) if isinstance(x, ast.Subscript) and isinstance(x.value, ast.Name) and x.value.id == lv]
+    if len(subs) != 1 or not (isinstance(e, ast.BinOp) and isinstance(e.op, ast.Mult)):
+        rep.undecided("O6", f, unparse(e), "element is not <scalar> * <row of the HS matrix>")
+        return
+    sub = subs[0]
+    sl = sub.slice
+    row0 = is_num(sl, 0) or (isinstance(sl, ast.Tuple) and len(sl.elts) == 2 and is_num(sl.elts[0], 0) and isinstance(sl.elts[1], ast.Slice)
+                             and sl.elts[1].lower is None and sl.elts[1].upper is None)
+    col0 = isinstance(sl, ast.Tuple) and len(sl.elts) == 2 and is_num(sl.elts[1], 0) and isinstance(sl.elts[0], ast.Slice)
+    coef = e.left if e.right is sub else (e.right if e.left is sub else None)
+    try:
+        cpoly = _size_poly(coef, f) if coef is not None else None
+    except Undecided:
+        cpoly = None
+    want = Poly.sym("d") ** __import__("fractions").Fraction(1, 2)
+    if col0:
+        rep.violation("O6", f, unparse(e), "the element is built from COLUMN 0 of the HS matrix, i.e. the image M_x(I)/sqrt(d) of the identity; the POVM "
+                      "element is M_x^†(I), which is row 0 (they coincide only for symmetric HS matrices, e.g. projective processes)", node=sub)
+    elif not row0:
+        rep.undecided("O6", f, unparse(e), "subscript %s is neither row 0 nor column 0" % unparse(sub))
+    elif cpoly is None:
+        rep.undecided("O6", f, unparse(e), "scale factor not recognised")
+    else:
+        rep.check(cpoly == want, "O6", f, unparse(e), "sqrt(d) * row 0", "the element is %r * row 0; the identity is sqrt(d) * B_0, so the factor must be d^1/2" % cpoly, node=sub)
